@@ -17,6 +17,10 @@ CHECKS["C16"] = dict(level="model_checking", design="3/C16",
    technique="TLC exhaustive check of the pad/unpad loops (PadMachine.tla) against Pad.tla + TLC validation of recorded executions",
    text="TLC checks for every buffer over {00,80,01,81} up to 8 (10) bytes and every block size 0..6 (8) that the constant-time pad and unpad loops written out as in the C code return what the declarative ISO 7816-4 definition returns, for every capacity, and that unpad(pad(x)) = len(x). The real functions are run on a sweep of lengths 0..80 (300) x 21 (140) block sizes x capacities around the boundary, markers at every position of the final block with corrupted variants, and exhaustively on all final blocks over {00,80,01} for block sizes <= 6, with buffers ending at PROT_NONE pages and the final block placed against a PROT_NONE page on either side (so a read outside the final block faults); TLC judges every record against Pad.tla.",
    note="Trusted: TLC and the driver's projection. Block sizes above 65536 are not executed. The overflow/misuse case belongs to C12.")
+CHECKS["C14"] = dict(level="exploration", design="3/C14",
+   technique="TLC-evaluated oracle (CtHelpers.tla) over recorded executions of the real helpers on exhaustive small and structured operands",
+   text="Every call of sodium_memcmp/compare/is_zero/increment/add/sub/memzero and crypto_verify_16/32/64 made by the driver is judged by TLC against exact definitions (equality, little-endian order decided by the most significant differing byte, carry/borrow folds modulo 2^(8 len)): exhaustive 1-byte operands, a 16^4 class product and 60000 random 2-byte operands, and for each length 0..70 (130) single-bit and single-byte differences at every position, carry/borrow chains of every length, seam patterns for the 8/12/24/64-byte assembly paths, all 16 alignments, in the native (asm), noasm and portable builds. It is an input sweep with an independent oracle, not a proof over all operands.",
+   note="Trusted: TLC and the driver's projection; only the executed operand pairs are decided.")
 NOT_YET = {}
 def main():
     props = [json.loads(l) for l in open(os.path.join(HERE, "properties.jsonl"))]
